@@ -167,6 +167,19 @@ class PropertyTypeMarker:
     pass
 
 
+class CodeV:
+    """result of compile(<constant string>, ..., 'eval')"""
+
+    def __init__(self, src):
+        self.src = src
+
+    def __repr__(self):
+        return f"<code {self.src!r}>"
+
+    def __deepcopy__(self, memo):
+        return self
+
+
 def make_builtins(interp):
     b = {}
 
@@ -292,7 +305,14 @@ def make_builtins(interp):
         return SetV(out)
 
     set_impl("set", t_set)
-    set_impl("frozenset", t_set)
+
+    def t_frozenset(i, a, k, n):
+        r = t_set(i, a, k, n)
+        if isinstance(r, SetV) and all(isinstance(x, (str, int, bool, bytes, type(None))) for x in r.items):
+            return frozenset(r.items)
+        return r
+
+    set_impl("frozenset", t_frozenset)
 
     def t_dict(i, a, k, n):
         d = DictV()
@@ -563,9 +583,19 @@ def make_builtins(interp):
     def _(i, a, k, n):
         return ClassMethodV(a[0])
 
+    @reg("compile")
+    def _(i, a, k, n):
+        src = a[0]
+        mode = a[2] if len(a) > 2 else k.get("mode", "exec")
+        if not isinstance(src, str) or mode != "eval":
+            raise Unsupported(f"compile() of {src!r} in mode {mode!r}", n)
+        return CodeV(src)
+
     @reg("eval")
     def _(i, a, k, n):
         code = a[0]
+        if isinstance(code, CodeV):
+            code = code.src
         if not isinstance(code, str):
             raise Unsupported(f"eval of a string that does not fold to a constant: {code!r}", n)
         g = a[1] if len(a) > 1 else None
